@@ -74,6 +74,7 @@ type rapidContext struct {
 	initCachingEnabled       bool
 	credentialsService       core.CredentialsService
 	handlerExecutionMutex    sync.Mutex
+	resetInvokeID            string // invoke id that the most recent reset ended; guarded by handlerExecutionMutex
 	shutdownContext          *shutdownContext
 	logStreamName            string
 
